@@ -211,11 +211,18 @@ class Batch:
             if not prim:
                 if "aborting due to" in msg.get("message", "") or "could not compile" in msg.get("message", ""):
                     continue
-                errs.append((k, None, None, code, msg.get("message", ""), msg.get("rendered", "")))
+                errs.append((k, None, None, code, msg.get("message", ""), msg.get("rendered", ""), None))
                 continue
             s = outer(prim[0])
+            # name of the derive macro the error arises in, if any (C19 tells underivable traits from other trait errors)
+            derive, e = None, prim[0]
+            while e.get("expansion"):
+                mname = e["expansion"].get("macro_decl_name") or ""
+                if "derive(" in mname:
+                    derive = mname
+                e = e["expansion"]["span"]
             errs.append((k, os.path.basename(s.get("file_name", "")), s.get("line_start"), code, msg.get("message", ""),
-                         msg.get("rendered", "")))
+                         msg.get("rendered", ""), derive))
         return p.returncode, errs, p.stderr.decode("utf-8", errors="replace")
 
     def compile(self, max_rounds=25):
@@ -227,7 +234,7 @@ class Batch:
             if rc == 0 and not errs:
                 break
             newly = {}
-            for (k, fname, line, code, message, rendered) in errs:
+            for (k, fname, line, code, message, rendered, derive) in errs:
                 cid = None
                 where = "module"
                 mods = {modname(c): c for c in self.cases if self.assign[c] == k}
@@ -248,7 +255,7 @@ class Batch:
                 if where == "module" and line is not None and self.cases[cid].assert_line is not None and line >= self.cases[cid].assert_line \
                         and self.cases[cid].asserts:
                     where = "assert"
-                newly.setdefault(cid, []).append({"code": code, "msg": message[:300], "where": where, "line": line})
+                newly.setdefault(cid, []).append({"code": code, "msg": message[:300], "where": where, "line": line, "derive": derive})
             if not newly:
                 raise MachineryError("cargo failed without attributable errors:\n" + stderr[-4000:])
             for cid, es in newly.items():
